@@ -31,6 +31,14 @@ fn apply(dir: &Path, e: &Value) {
             fs::create_dir_all(q.parent().unwrap()).unwrap();
             fs::rename(&p, &q).unwrap();
         }
+        // the model's boundary moves / atomic save, performed the way h_watch performs them
+        "movein" => {
+            let out = dir.join("outside").join("in.ts");
+            fs::rename(out, &p).unwrap();
+        }
+        "moveout" | "moveout_dir" => fs::rename(&p, dir.join("outside").join("moved_out")).unwrap(),
+        "movein_dir" => fs::rename(dir.join("outside").join("dir"), &p).unwrap(),
+        "atomic" => fs::rename(PathBuf::from(format!("{}.tmp", p.display())), &p).unwrap(),
         other => panic!("unknown op {other}"),
     }
 }
